@@ -25,6 +25,7 @@ class Scratch:
                                REPO + "/", self.dir + "/repo/"])
         self.repo = self.dir + "/repo"
         self.gen = self.dir + "/gen"
+        self.shims = tuple(shims)
         os.makedirs(self.gen)
         self.set_shims(shims)
 
@@ -37,9 +38,32 @@ class Scratch:
                 for s in shims:
                     f.write('%s = { path = "%s/shims/%s" }\n' % (s, VERIF, s))
 
-    def env(self, small=True, extra_cfg=()):
+    def native_repo(self):
+        """A second, unpatched copy of the tree for native builds (real memchr / rayon / parking_lot,
+        the repository's own Cargo.lock) - never shared with the Kani tree."""
+        d = self.dir + "/repo-native"
+        if not os.path.isdir(d):
+            subprocess.check_call(["rsync", "-a", "--exclude", "target", "--exclude", ".git", "--exclude", ".cargo",
+                                   REPO + "/", d + "/"])
+            os.makedirs(d + "/.cargo", exist_ok=True)
+            with open(d + "/.cargo/config.toml", "w") as f:
+                f.write("[net]\noffline = true\n")
+        return d
+
+    def check_shims_locked(self, shims):
+        """the Kani tree must really have resolved the shims (a path dependency has no `source`)"""
+        lock = open(self.repo + "/Cargo.lock").read()
+        for sname in shims:
+            ents = re.findall(r'\[\[package\]\]\nname = "%s"\nversion = "[^"]*"\n(source = [^\n]*\n)?' % re.escape(sname), lock)
+            if len(ents) != 1 or ents[0] != "":
+                raise BuildError("shim %s is not the one resolved in the Kani tree (Cargo.lock)" % sname)
+
+    def env(self, small=True, extra_cfg=(), kani=False):
         e = dict(os.environ)
         flags = ["--cfg", "nucleo_verif"]
+        if kani:
+            # the Vec::push stub is generic over the allocator (Kani's toolchain is a nightly)
+            flags += ["-Zcrate-attr=feature(allocator_api)"]
         if small:
             flags += ["--cfg", "nucleo_verif_small"]
         for c in extra_cfg:
@@ -82,100 +106,85 @@ class HarnessResult:
                 ("name", "status", "checks", "time_s", "solver_s", "queries", "vars", "clauses", "steps")}
 
 
-CHECK_RE = re.compile(r"^Check (\d+): (\S+)")
+# CBMC is run directly on the goto binaries Kani generates (cargo kani --only-codegen): Kani's own
+# driver asks CBMC for a JSON trace of every failed check *and every satisfied cover*, which for
+# these programs costs 30-60 s per trace; the plain-text UI without traces is 3-5x faster. The
+# flags below are the ones Kani 0.68 itself passes (observed with ps), the result post-processing
+# mirrors Kani's (reachability_check ignored, cover FAILURE = SATISFIED, unsupported_construct
+# reachable = inconclusive, unwinding assertion failure = inconclusive).
+CBMC_FLAGS = ["--no-malloc-may-fail", "--no-undefined-shift-check", "--no-signed-overflow-check", "--nan-check",
+              "--no-self-loops-to-assumptions", "--no-pointer-primitive-check", "--object-bits", "16",
+              "--sat-solver", "cadical", "--slice-formula", "--verbosity", "8"]
+
+RES_RE = re.compile(r"^\[(?P<id>[^\n]*?)\] (?:line (?P<line>\d+) )?(?P<desc>.*?): (?P<st>SUCCESS|FAILURE|UNKNOWN|ERROR)$", re.M | re.S)
 
 
-def parse_block(res, text):
-    """Parse one harness's regular-format output."""
-    cur = None
-    for line in text.splitlines():
-        m = CHECK_RE.match(line)
-        if m:
-            cur = {"id": m.group(2)}
-            res.checks += 1
-            continue
-        s = line.strip()
-        if cur is not None and s.startswith("- Status:"):
-            cur["status"] = s.split(":", 1)[1].strip()
-        elif cur is not None and s.startswith("- Description:"):
-            cur["desc"] = s.split(":", 1)[1].strip().strip('"')
-        elif cur is not None and s.startswith("- Location:"):
-            cur["loc"] = s.split(":", 1)[1].strip()
-            st = cur.get("status", "")
-            d = cur.get("desc", "")
-            if ".cover." in cur["id"] or cur["id"].endswith(".cover"):
-                res.covers[d] = st
-                res.checks -= 1
-            elif st == "FAILURE":
-                res.failed.append((d, cur["loc"], cur["id"]))
-            elif st not in ("SUCCESS", "UNREACHABLE", "UNDETERMINED"):
-                res.failed.append(("status %s: %s" % (st, d), cur["loc"], cur["id"]))
-            cur = None
-        elif s.startswith("Runtime Solver:"):
-            res.solver_s += float(s.split(":")[1].strip().rstrip("s"))
-            res.queries += 1
+def prop_class(pid):
+    parts = pid.rsplit(".", 2)
+    if len(parts) == 3 and parts[2].isdigit():
+        return parts[1]
+    if len(parts) >= 2 and parts[-1].isdigit():
+        return parts[-2]
+    return pid
+
+
+def parse_cbmc_text(res, text):
+    """Parse CBMC plain-text output of one harness."""
+    for l in text.splitlines():
+        s = l.strip()
+        if s.startswith("Runtime Solver:"):
+            res.solver_s += float(s.split(":")[1].strip().rstrip("s")); res.queries += 1
         elif s.startswith("size of program expression:"):
             res.steps = int(s.split(":")[1].split()[0])
         elif "variables," in s and "clauses" in s:
             m2 = re.match(r"(\d+) variables, (\d+) clauses", s)
             if m2:
                 res.vars = int(m2.group(1)); res.clauses = int(m2.group(2))
-        elif s.startswith("Verification Time:"):
-            res.time_s = float(s.split(":")[1].strip().rstrip("s"))
-        elif s.startswith("VERIFICATION:-"):
-            v = s.split(":-")[1].strip()
-            res.verdict_line = v
-    v = getattr(res, "verdict_line", None)
-    unwind = any("unwinding assertion" in d for d, _, _ in res.failed)
-    if v is None:
+    k = text.find("** Results:")
+    if k < 0:
         res.status = "error"
-    elif v.startswith("SUCCESSFUL"):
+        return
+    body = text[k:]
+    # result entries start with '[' at the beginning of a line and end with ': STATUS'
+    entries = re.split(r"\n(?=\[)", body)
+    unsupported = False
+    unwind = False
+    for e in entries:
+        if not e.startswith("["):
+            continue
+        e = e.split("\n\n")[0]
+        m = re.match(r"^\[(?P<id>.*?)\] (?:line (?P<line>\d+) )?(?P<desc>.*): (?P<st>SUCCESS|FAILURE|UNKNOWN|ERROR)\s*$", e, re.S)
+        if not m:
+            continue
+        pid = m.group("id"); desc = " ".join(m.group("desc").split()); st = m.group("st")
+        cls = prop_class(pid)
+        if cls == "reachability_check":
+            continue
+        desc = re.sub(r"^\[KANI_CHECK_ID_[^\]]*\]\s*", "", desc).strip('"')
+        if cls == "cover":
+            res.covers[desc] = "SATISFIED" if st == "FAILURE" else ("UNSATISFIABLE" if st == "SUCCESS" else st)
+            continue
+        res.checks += 1
+        if st == "SUCCESS":
+            continue
+        if cls == "unsupported_construct":
+            unsupported = True
+            res.failed.append(("unsupported construct reachable: " + desc, pid, pid))
+        elif cls == "unwind" or "unwinding assertion" in desc:
+            unwind = True
+            res.failed.append(("unwinding assertion: " + desc, pid, pid))
+        else:
+            res.failed.append((desc, "%s line %s" % (pid, m.group("line")), pid))
+    if "VERIFICATION SUCCESSFUL" in body and not res.failed:
         res.status = "ok"
     elif unwind:
         res.status = "unwind"
-    elif res.failed:
-        res.status = "failed"
+    elif unsupported:
+        res.status = "error"; res.note = "unsupported construct reachable"
+    elif "VERIFICATION FAILED" in body or "VERIFICATION SUCCESSFUL" in body:
+        res.status = "failed" if res.failed else "ok"
     else:
         res.status = "error"
-    if "CBMC failed" in text or "Status: ERROR" in text or "out of memory" in text.lower():
-        if not res.failed or unwind:
-            res.status = "error"
-
-
-def split_output(out, names):
-    """Split the output of one `cargo kani` invocation (possibly -j N) into per-harness blocks."""
-    results = {n: HarnessResult(n) for n in names}
-    short = {}
-    blocks = {}
-    thread_cur = {}
-    cur_name = None
-    cur_thread = None
-    for line in out.splitlines():
-        m = re.match(r"^(?:Thread (\d+): )?Checking harness (\S+?)\.\.\.$", line.strip())
-        if m:
-            t = m.group(1)
-            full = m.group(2)
-            nm = full.split("::")[-1]
-            if t is None:
-                cur_name = nm
-                cur_thread = None
-            else:
-                thread_cur[t] = nm
-            blocks.setdefault(nm, [])
-            continue
-        m = re.match(r"^Thread (\d+):\s*(.*)$", line)
-        if m:
-            cur_thread = m.group(1)
-            cur_name = thread_cur.get(cur_thread)
-            if cur_name is not None:
-                blocks.setdefault(cur_name, []).append(m.group(2))
-            continue
-        if cur_name is not None:
-            blocks.setdefault(cur_name, []).append(line)
-    for nm, lines in blocks.items():
-        if nm in results:
-            parse_block(results[nm], "\n".join(lines))
-    return results
 
 
 def mem_watchdog(stop, cap_kb, killed):
@@ -193,14 +202,65 @@ def mem_watchdog(stop, cap_kb, killed):
         stop.wait(5)
 
 
-def run_one(scratch, package, name, timeout_s, small, extra_cfg, extra_args, logdir):
-    args = ["cargo", "kani", "-p", package, "--harness", name] + list(extra_args)
-    logp = os.path.join(logdir, name + ".log")
+def codegen(scratch, package, names, small=True, extra_cfg=(), extra_args=(), logdir=None):
+    """cargo kani --only-codegen for all harnesses at once; returns {name: goto binary}."""
+    args = ["cargo", "kani", "-p", package, "--only-codegen", "-Z", "stubbing"]
+    for n in names:
+        args += ["--harness", n]
+    args += list(extra_args)
+    p = subprocess.run(args, cwd=scratch.repo, env=scratch.env(small, extra_cfg, kani=True), capture_output=True, text=True)
+    out = p.stdout + p.stderr
+    if logdir:
+        open(os.path.join(logdir, "codegen.log"), "w").write(out)
+    if p.returncode != 0 or "error: could not compile" in out:
+        errs = [l for l in out.splitlines() if l.startswith("error")]
+        raise BuildError("\n".join(errs[:20]))
+    base = os.path.join(scratch.repo, "target", "kani")
+    newest = {}
+    symtabs = {}
+    for root, _, files in os.walk(base):
+        for f in files:
+            if not f.endswith(".symtab.out"):
+                continue
+            for n in names:
+                if f.endswith("%d%s.symtab.out" % (len(n), n)):
+                    fp = os.path.join(root, f)
+                    mt = os.path.getmtime(fp)
+                    if n not in newest or mt > newest[n]:
+                        newest[n] = mt; symtabs[n] = fp
+    return symtabs
+
+
+KANI_LIB_C = os.path.expanduser("~/.kani/kani-0.68.0/library/kani/kani_lib.c")
+
+
+def link_and_instrument(symtab, outdir, name):
+    """The post-codegen steps of Kani 0.68's driver (observed with --verbose), verbatim."""
+    base = os.path.basename(symtab)[:-len(".symtab.out")]
+    mangled = "_R" + base.split("__R", 1)[1]
+    out = os.path.join(outdir, name + ".goto")
+    steps = [
+        ["goto-cc", symtab, KANI_LIB_C, "-o", out],
+        ["goto-cc", out, "--function", mangled, "-o", out],
+        ["goto-instrument", "--add-library", "--no-malloc-may-fail", out, out],
+        ["goto-instrument", "--generate-function-body-options", "assert-false-assume-false",
+         "--generate-function-body", ".*", "--drop-unused-functions", out, out],
+        ["goto-instrument", "--ensure-one-backedge-per-target", out, out],
+    ]
+    for st in steps:
+        p = subprocess.run(st, capture_output=True, text=True)
+        if p.returncode != 0:
+            raise BuildError("%s failed: %s" % (st[0], (p.stdout + p.stderr)[-600:]))
+    return out
+
+
+def run_one(scratch, name, goto, unwind, timeout_s, logdir, extra_cbmc=()):
     res = HarnessResult(name)
+    logp = os.path.join(logdir, name + ".log")
+    args = ["cbmc"] + CBMC_FLAGS + ["--unwind", str(unwind)] + list(extra_cbmc) + [goto]
     t0 = time.time()
     with open(logp, "w") as lf:
-        p = subprocess.Popen(args, cwd=scratch.repo, env=scratch.env(small, extra_cfg), stdout=lf,
-                             stderr=subprocess.STDOUT, start_new_session=True)
+        p = subprocess.Popen(args, stdout=lf, stderr=subprocess.STDOUT, start_new_session=True)
         try:
             p.wait(timeout=timeout_s)
             timed_out = False
@@ -211,51 +271,65 @@ def run_one(scratch, package, name, timeout_s, small, extra_cfg, extra_args, log
             except Exception:
                 pass
             p.wait()
-    out = open(logp, errors="replace").read()
-    if "error: could not compile" in out or re.search(r"^error(\[E\d+\])?:", out, re.M) and "VERIFICATION" not in out:
-        errs = [l for l in out.splitlines() if l.startswith("error")]
-        res.status = "build-error"
-        res.note = "\n".join(errs[:20]) + "\n(see %s)" % logp
-        return res
-    parse_block(res, out)
     res.wall_s = time.time() - t0
+    res.time_s = res.wall_s
+    # keep logs small: drop the unwinding chatter
+    text = "\n".join(l for l in open(logp, errors="replace").read().splitlines()
+                     if not l.startswith(("Unwinding loop", "Not unwinding", "aborting path")))
+    open(logp, "w").write(text)
     if timed_out:
         res.status = "timeout"
+        return res
+    parse_cbmc_text(res, text)
+    if p.returncode not in (0, 10) and res.status in ("ok", "failed"):
+        res.status = "error"
+    if p.returncode < 0 or p.returncode == 137:
+        res.status = "error"; res.note = "cbmc killed (signal / out of memory)"
     return res
 
 
-def run_kani(scratch, package, names, jobs, timeout_s, small=True, extra_cfg=(), extra_args=(),
-             mem_cap_gb=12, per_harness_timeout_s=None, logname="kani"):
-    """Runs every harness in its own cargo-kani process (regular output: per-check and per-cover
-    results), `jobs` at a time, sharing one target dir (cargo serialises the short compile steps).
-    Returns ({name: HarnessResult}, wall_s, logdir)."""
+def run_kani(scratch, package, insts, jobs, timeout_s, small=True, extra_cfg=(), extra_args=(),
+             mem_cap_gb=14, per_harness_timeout_s=None, logname="cbmc"):
+    """Compile every harness once (Kani), then decide each with CBMC, `jobs` at a time.
+    insts: objects with .name and .unwind. Returns ({name: HarnessResult}, wall_s, logdir)."""
     from concurrent.futures import ThreadPoolExecutor
     logdir = os.path.join(scratch.dir, logname)
     os.makedirs(logdir, exist_ok=True)
     t0 = time.time()
+    names = [i.name for i in insts]
+    gotos = codegen(scratch, package, names, small, extra_cfg, extra_args, logdir)
+    scratch.check_shims_locked(scratch.shims)
+    log("   codegen of %d harnesses: %.0fs" % (len(names), time.time() - t0))
     stop = threading.Event(); killed = []
     wd = threading.Thread(target=mem_watchdog, args=(stop, mem_cap_gb * 1024 * 1024, killed), daemon=True)
     wd.start()
     deadline = t0 + timeout_s
     results = {}
 
-    def work(n):
+    def work(inst):
+        n = inst.name
+        if n not in gotos:
+            r = HarnessResult(n); r.status = "missing"; r.note = "no goto binary produced"
+            return r
         left = deadline - time.time()
         if left < 20:
             r = HarnessResult(n); r.status = "timeout"; r.note = "tier cap reached before start"
             return r
         t = left if per_harness_timeout_s is None else min(left, per_harness_timeout_s)
-        return run_one(scratch, package, n, t, small, extra_cfg, extra_args, logdir)
+        goto = link_and_instrument(gotos[n], logdir, n)
+        try:
+            return run_one(scratch, n, goto, inst.unwind, t, logdir)
+        finally:
+            try:
+                os.remove(goto)
+            except OSError:
+                pass
 
-    # warm the dependency build once so the parallel jobs only compile the crate under test
     with ThreadPoolExecutor(max_workers=max(1, jobs)) as ex:
-        for r in ex.map(work, names):
+        for r in ex.map(work, insts):
             results[r.name] = r
-            log("   %-44s %-8s %6.0fs  steps=%d vars=%d" % (r.name, r.status, getattr(r, "wall_s", 0), r.steps, r.vars))
+            log("   %-46s %-8s %5.0fs steps=%d vars=%d queries=%d" % (r.name, r.status, getattr(r, "wall_s", 0), r.steps, r.vars, r.queries))
     stop.set()
-    be = [r for r in results.values() if r.status == "build-error"]
-    if be:
-        raise BuildError(be[0].note)
     if killed:
         for r in results.values():
             if r.status in ("error", "missing"):
@@ -272,10 +346,10 @@ class BuildError(Exception):
 # ---------------------------------------------------------------------------------------------
 def concrete_playback(scratch, package, name, small=True, extra_cfg=(), extra_args=(), timeout_s=1800):
     """Re-run one failing harness with concrete playback and return the list of byte vectors."""
-    args = ["cargo", "kani", "-p", package, "--harness", name, "-Z", "concrete-playback",
+    args = ["cargo", "kani", "-p", package, "--harness", name, "-Z", "stubbing", "-Z", "concrete-playback",
             "--concrete-playback=print"] + list(extra_args)
     try:
-        out = subprocess.run(args, cwd=scratch.repo, env=scratch.env(small, extra_cfg), capture_output=True,
+        out = subprocess.run(args, cwd=scratch.repo, env=scratch.env(small, extra_cfg, kani=True), capture_output=True,
                              text=True, timeout=timeout_s).stdout
     except subprocess.TimeoutExpired:
         return None
@@ -303,29 +377,36 @@ def native_replay(scratch, package, name, tape, profile, small=True, extra_cfg=(
     env = scratch.env(small, extra_cfg)
     env["NUCLEO_VERIF_REPLAY"] = f
     env["CARGO_TARGET_DIR"] = scratch.dir + "/native-target"
-    cfgp = scratch.repo + "/.cargo/config.toml"
-    saved = open(cfgp).read()
-    if real_deps:
-        with open(cfgp, "w") as fh:
-            fh.write("[net]\noffline = true\n")
-    try:
-        args = ["cargo", "test", "-p", package, "--lib", "--offline"]
-        if profile == "release":
-            args.append("--release")
-        args += [test_path, "--", "--exact", "--nocapture", "--test-threads", "1"]
-        p = subprocess.run(args, cwd=scratch.repo, env=env, capture_output=True, text=True, timeout=1200)
-        out = p.stdout + p.stderr
-    finally:
-        with open(cfgp, "w") as fh:
-            fh.write(saved)
+    args = ["cargo", "test", "-p", package, "--lib", "--offline"]
+    if profile == "release":
+        args.append("--release")
+    args += [test_path, "--", "--exact", "--nocapture", "--test-threads", "1"]
+    p = subprocess.run(args, cwd=scratch.native_repo(), env=env, capture_output=True, text=True, timeout=1200)
+    out = p.stdout + p.stderr
     m = re.search(r"REPLAY-RESULT (\w+)", out)
     if "REPLAY-ASSUME-FAILED" in out:
         return "assume-failed", out
     if m:
         return m.group(1), out
+    if "could not compile" in out:
+        log(out[-3000:])
+        return "native-build-error", out[-3000:]
     if "panicked" in out:
         return "panic", out
-    return "unknown", out
+    return "unknown", out[-2000:]
+
+
+def oracle_selftest(scratch, package, small=True, test_path="verif::replay::oracle_selftest"):
+    """Push the repository's own test vectors through the oracle natively. Returns number validated, or None."""
+    env = scratch.env(small)
+    env["CARGO_TARGET_DIR"] = scratch.dir + "/native-target"
+    p = subprocess.run(["cargo", "test", "-p", package, "--lib", "--offline", test_path, "--", "--exact", "--nocapture"],
+                       cwd=scratch.native_repo(), env=env, capture_output=True, text=True, timeout=1200)
+    m = re.search(r"ORACLE-SELFTEST-OK (\d+)", p.stdout + p.stderr)
+    if p.returncode != 0 or not m:
+        log((p.stdout + p.stderr)[-1500:])
+        return None
+    return int(m.group(1))
 
 
 # ---------------------------------------------------------------------------------------------
